@@ -8,6 +8,7 @@ use proto::*;
 
 mod bio;
 mod chan_bundle;
+mod chan_corrupt;
 mod chan_eid;
 mod chan_hex;
 mod chan_json;
@@ -49,6 +50,7 @@ fn run_line(line: &str) -> String {
         "SCHED" => chan_now::sched(args),
         "VALIDATE" => chan_ops::validate(args),
         "OPS" => chan_ops::ops(args),
+        "CORR" => chan_corrupt::corr(args),
         "JSON" => chan_json::json(args),
         "JTOK" => chan_json::jtok(args),
         "JSONDEC" => chan_json::jsondec(args),
